@@ -191,7 +191,7 @@ func checkC09(P *Program, r *Result, tier string) {
 		}
 		leak, exit := exitsWithout(s.Call, func(in ssa.Instruction) bool {
 			st, ok := in.(*ssa.Store)
-			return ok && recvFieldOf(fn, st.Addr) == field
+			return ok && recvFieldOf(fn, st.Addr) == field && !viewOfField(fn, st.Val, field, 0)
 		})
 		detail := ""
 		if leak {
@@ -276,8 +276,47 @@ func checkC09(P *Program, r *Result, tier string) {
 					n++
 					ok := false
 					for _, s2 := range storesTo(fn, "bufReadOnly") {
-						if set, isC := flagConst(s2.Val); isC && set && s2.Block() == st.Block() {
+						if s2.Block() != st.Block() {
+							continue
+						}
+						if set, isC := flagConst(s2.Val); isC && set {
 							ok = true
+						}
+						// the flag handed in by the caller: every call that passes a buffer passes a constant "set"
+						if par, isPar := s2.Val.(*ssa.Parameter); isPar {
+							idx := -1
+							for i, fp := range fn.Params {
+								if fp == par {
+									idx = i
+								}
+							}
+							all, any := true, false
+							for caller := range P.AllFuncs {
+								if !inRepo(caller) || caller.Blocks == nil || caller.Synthetic != "" {
+									continue // (wrappers of promoted methods just pass their own parameters on)
+								}
+								for _, c := range callsIn(caller) {
+									if c.Common().StaticCallee() != fn || idx < 0 || idx >= len(c.Common().Args) {
+										continue
+									}
+									bufNil := false
+									for i, fp := range fn.Params {
+										if isByteSlice(fp.Type()) && i < len(c.Common().Args) && isNilConst(c.Common().Args[i]) {
+											bufNil = true
+										}
+									}
+									if bufNil {
+										continue
+									}
+									any = true
+									if set, isC := flagConst(c.Common().Args[idx]); !isC || !set {
+										all = false
+									}
+								}
+							}
+							if all && any {
+								ok = true
+							}
 						}
 					}
 					r.add("OWNER-GUARD", shortName(fn), "store", "a caller-provided slice becomes the buffer only together with bufReadOnly = true", P.pos(instrPos(st)), ok, "")
@@ -341,7 +380,7 @@ func ownerGuardRules(P *Program, r *Result, rule string) {
 		}
 		leak, exit := exitsWithout(s.Call, func(in ssa.Instruction) bool {
 			st, ok := in.(*ssa.Store)
-			return ok && recvFieldOf(fn, st.Addr) == field
+			return ok && recvFieldOf(fn, st.Addr) == field && !viewOfField(fn, st.Val, field, 0)
 		})
 		detail := ""
 		if leak {
@@ -464,4 +503,29 @@ func ownerFlagRule(P *Program, r *Result, rule string) {
 			r.add(rule, shortName(fn), "flag", "bufReadOnly is cleared only right after the buffer was replaced by a pool allocation of this reader", P.pos(instrPos(st)), ok, detail)
 		}
 	}
+}
+
+// viewOfField reports whether v is (a sub-slice of) the current value of the
+// receiver field: storing it back does not forget the memory the field held.
+func viewOfField(fn *ssa.Function, v ssa.Value, field string, depth int) bool {
+	if depth > 8 {
+		return false
+	}
+	switch x := v.(type) {
+	case *ssa.Slice:
+		return viewOfField(fn, x.X, field, depth+1)
+	case *ssa.ChangeType:
+		return viewOfField(fn, x.X, field, depth+1)
+	case *ssa.Phi:
+		for _, e := range x.Edges {
+			if e != v && viewOfField(fn, e, field, depth+1) {
+				return true
+			}
+		}
+	case *ssa.UnOp:
+		if x.Op == token.MUL {
+			return recvFieldOf(fn, x.X) == field
+		}
+	}
+	return false
 }
